@@ -4,6 +4,7 @@ mod util;
 mod cp;
 mod framing;
 mod timing;
+mod hitobj;
 
 use util::*;
 
@@ -19,6 +20,7 @@ fn main() {
         ("framing", "record") => framing::record(&args, &mut s),
         ("timing", "replay") => timing::replay(&args, &mut s),
         ("timing", "record") => timing::record(&args, &mut s),
+        ("hitobj", "replay") => hitobj::replay(&args, &mut s),
         (m, o) => {
             eprintln!("unknown module/mode {m} {o}");
             std::process::exit(2);
